@@ -208,3 +208,82 @@ Proof.
   cnt x Pm. cnt x Pd. rewrite !count_occ_app. lia.
 Qed.
 End Chain.
+
+(* ---------------------------------------------------------------- the uninit forms of a conversion, then the writes *)
+From Truc.Proofs Require Import Fill.
+
+Section ConvUninit.
+Variable ds : defs.
+Variable TI : nat -> tinfo.
+Variable rt : runtime.
+Variables (A cap : N).
+Hypothesis RT : rt_ok rt = true.
+
+(* the uninit forms: only the mandatory added fields are supplied; the result holds those and the carried-over fields *)
+Lemma conv_holds_uninit P Q minus plus carried :
+  layout_ok ds TI A cap P -> layout_ok ds TI A cap Q ->
+  Permutation P (minus ++ carried) -> Permutation Q (plus ++ carried) ->
+  forall v prev and_out vals pvals b, holds ds TI cap A P vals b ->
+  exists b',
+    op_conv ds TI rt A cap v prev minus plus true and_out b pvals =
+      Ok (if and_out then OAndOut b' (map (fun i => (nm ds i, Some (vals i))) minus) else ORecord b',
+          if and_out then [] else droppable_of TI (rev (map (fun i => (nm ds i, (Some (vals i), ty ds i))) minus))) /\
+    holds ds TI cap A (filter (fun i => negb (un ds i)) plus ++ carried) (merge vals pvals plus) b'.
+Proof.
+  intros LP LQ PP PQ v prev and_out vals pvals b H.
+  destruct (conv_holds ds TI rt A cap RT P Q minus plus carried LP LQ PP PQ v prev true and_out vals pvals b H)
+    as (b' & E & Ha & Hc & Hw & Ho).
+  exists b'. split; [exact E|]. constructor; auto.
+  eapply Permutation_trans; [exact Ho|].
+  assert (Hw' : written ds plus true = filter (fun i => negb (un ds i)) plus) by reflexivity.
+  rewrite Hw'.
+  assert (Hnd : NoDup (plus ++ carried)) by (eapply Permutation_NoDup; [exact PQ|apply (lo_nd _ _ _ _ _ LQ)]).
+  rewrite map_app. apply Permutation_app.
+  - replace (map (entry_of ds (merge vals pvals plus)) (filter (fun i => negb (un ds i)) plus))
+      with (map (entry_of ds pvals) (filter (fun i => negb (un ds i)) plus)); auto.
+    apply map_ext_in. intros i Hi. apply filter_In in Hi. unfold entry_of, merge. now rewrite (proj2 (mem_true i plus) (proj1 Hi)).
+  - replace (map (entry_of ds (merge vals pvals plus)) carried) with (map (entry_of ds vals) carried); auto.
+    apply map_ext_in. intros i Hi. unfold entry_of, merge. destruct (mem i plus) eqn:E'; auto.
+    apply mem_true in E'. exfalso. exact (NoDup_app_disj plus carried i Hnd E' Hi).
+Qed.
+
+(* ... and once every added field that was left uninitialised has been written, the record holds the whole next variant *)
+Theorem conv_uninit_then_fill P Q minus plus carried :
+  layout_ok ds TI A cap P -> layout_ok ds TI A cap Q ->
+  Permutation P (minus ++ carried) -> Permutation Q (plus ++ carried) ->
+  (forall i, In i plus -> un ds i = true -> dr ds TI i = false) ->
+  forall v prev and_out vals pvals f b, holds ds TI cap A P vals b ->
+  exists b' b'' vals',
+    op_conv ds TI rt A cap v prev minus plus true and_out b pvals =
+      Ok (if and_out then OAndOut b' (map (fun i => (nm ds i, Some (vals i))) minus) else ORecord b',
+          if and_out then [] else droppable_of TI (rev (map (fun i => (nm ds i, (Some (vals i), ty ds i))) minus))) /\
+    life ds TI rt b' (assign_all f (filter (un ds) plus)) = Ok (b'', []) /\
+    holds ds TI cap A Q vals' b'' /\
+    (forall i, In i Q -> vals' i = if mem i plus then (if un ds i then f i else pvals i) else vals i).
+Proof.
+  intros LP LQ PP PQ Hplain v prev and_out vals pvals f b H.
+  destruct (conv_holds_uninit P Q minus plus carried LP LQ PP PQ v prev and_out vals pvals b H) as (b' & E & H').
+  assert (Hnd : NoDup (plus ++ carried)) by (eapply Permutation_NoDup; [exact PQ|apply (lo_nd _ _ _ _ _ LQ)]).
+  assert (HinQ : forall i, In i (plus ++ carried) -> In i Q) by (intros i Hi; eapply Permutation_in; [symmetry; exact PQ|exact Hi]).
+  assert (Hpnd : NoDup plus) by (apply NoDup_app_l in Hnd; exact Hnd).
+  destruct (fill_holds ds TI rt A cap RT Q LQ (filter (un ds) plus) (filter (fun i => negb (un ds i)) plus ++ carried)
+              (merge vals pvals plus) b' f H') as (b'' & vals' & E2 & H2 & Hf & Ho).
+  - intros j Hj. apply HinQ. apply in_app_or in Hj. destruct Hj as [Hj|Hj]; apply in_or_app; [left; apply filter_In in Hj; tauto|now right].
+  - clear -Hpnd. induction Hpnd as [|x l Hx Hn IH]; simpl; [constructor|]. destruct (un ds x); auto. constructor; auto.
+    rewrite filter_In. tauto.
+  - intros i Hi. apply filter_In in Hi. destruct Hi as [Hi Hu]. split; [apply HinQ, in_or_app; now left|].
+    split; [|apply Hplain; auto]. intro Hq. apply in_app_or in Hq. destruct Hq as [Hq|Hq].
+    + apply filter_In in Hq. rewrite Hu in Hq. destruct Hq as [_ Hq]. discriminate.
+    + exact (NoDup_app_disj plus carried i Hnd Hi Hq).
+  - exists b', b'', vals'. split; [exact E|]. split; [exact E2|]. split.
+    + apply (holds_perm ds TI A cap (rev (filter (un ds) plus) ++ filter (fun i => negb (un ds i)) plus ++ carried) Q vals' b''); [|exact H2].
+      rewrite app_assoc. eapply Permutation_trans; [apply Permutation_app_tail; apply split_un_perm|]. symmetry. exact PQ.
+    + intros i Hi. destruct (mem i plus) eqn:Em.
+      * apply mem_true in Em. destruct (un ds i) eqn:Eu.
+        -- apply Hf. apply filter_In. auto.
+        -- rewrite Ho by (rewrite filter_In, Eu; intros [_ Hq]; discriminate). unfold merge.
+           now rewrite (proj2 (mem_true i plus) Em).
+      * rewrite Ho. { unfold merge. now rewrite Em. }
+        rewrite filter_In. intros [Hq _]. apply mem_true in Hq. congruence.
+Qed.
+End ConvUninit.
